@@ -350,22 +350,41 @@ def settle : Flow → List Event × Out
   | .resp o => ([], o)
   | .exc => ([.stderr], mkError 500 "Internal Server Error".toList)
 
-/-- `Ombott._handle(environ)` -/
-def handle (app : App) (_s : Slots) (r : Req) : Slots × List Event × Out :=
-  -- both branches re-initialise the request and the response object first
-  let req := some { id := r.id, urlRepr := r.urlRepr : ReqSlot }
-  let st := RState.init
+/-- `request.__init__(environ)`: the reused request object is pointed at the new environ -/
+def Slots.initRequest (s : Slots) (r : Req) : Slots :=
+  { s with req := some { id := r.id, urlRepr := r.urlRepr } }
+
+/-- `response.__init__()`: `BaseResponse.__init__` assigns `_status_line`, `_status_code`
+(through the `status` setter with the default), `_cookies = None`, `_headers = {}`, `body = ''` —
+every attribute of the reused response object -/
+def Slots.initResponse (s : Slots) : Slots :=
+  { s with resp := { s.resp with code := Gen.defaultStatus, line := lineOfCode Gen.defaultStatus,
+                                 headers := [], cookies := [] } }
+
+/-- `_handle` after the re-initialisation of the two per-thread objects -/
+def handleFrom (app : App) (s0 : Slots) (r : Req) : Slots × List Event × Out :=
   if !r.pathOK then
-    ({ req := req, resp := st }, [], mkError 400 "Invalid path string. Expected UTF-8".toList)
+    (s0, [], mkError 400 "Invalid path string. Expected UTF-8".toList)
   else
-    let (st1, ev1, fl1) := runBefore (hookList "before_request" app.before) st
+    let (st1, ev1, fl1) := runBefore (hookList "before_request" app.before) s0.resp
     let (st2, ev2, fl2) :=
       match fl1 with
       | some fl => (st1, [], fl)
       | none => runRoute r.route st1
     let (st3, ev3, fl3) := runAfter (hookList "after_request" app.after) st2 fl2
     let (ev4, out) := settle fl3
-    ({ req := req, resp := st3 }, ev1 ++ ev2 ++ ev3 ++ ev4, out)
+    ({ s0 with resp := st3 }, ev1 ++ ev2 ++ ev3 ++ ev4, out)
+
+/-- `Ombott._handle(environ)` on the slots the previous request left behind: both branches (the
+early return for an undecodable `PATH_INFO` and the normal one) start with
+`request.__init__(environ); response.__init__()` -/
+def handle (app : App) (s : Slots) (r : Req) : Slots × List Event × Out :=
+  handleFrom app (s.initRequest r).initResponse r
+
+/-- after the re-initialisation nothing of the previous slots is left -/
+theorem reinit_eq (s : Slots) (r : Req) :
+    (s.initRequest r).initResponse =
+      { req := some { id := r.id, urlRepr := r.urlRepr }, resp := RState.init } := rfl
 
 /-! ### `_cast` -/
 
